@@ -328,3 +328,128 @@ func DirectedAMEVEarlyCommit(mons ...vnet.Monitor) *Built {
 	finish(c)
 	return &Built{C: c, Spec: Spec{Profile: "directed-amev-early-commit", Idx: -1, Seed: c.Cfg.Seed}}
 }
+
+// SplitPrimary: seeded variations of the equivocating-primary attack. The
+// Byzantine primary (plus F-1 Byzantine helpers) gets proposal P1 accepted by
+// M-F honest validators and then shows the remaining honest validators
+// ("victims") proposal P2 together with everything an attacker can produce
+// for it - its own valid (pre)commits and responses - interleaved in a seeded
+// random order with the genuine commits for P1 and with the delivery of a
+// transaction the victims miss. With a correct library the victims can never
+// collect M verifying commits for P2.
+func SplitPrimary(rng *rand.Rand, mons ...vnet.Monitor) *Built {
+	n := []int{4, 4, 7}[rng.Intn(3)]
+	f := (n - 1) / 3
+	m := n - f
+	cfg := vnet.Config{Seed: rng.Int63(), Profile: "split-primary", N: n, Heights: 1, AMEV: -1, TPB: time.Second, TxPerBlock: 3,
+		Epoch: time.Date(2031, 5, 1, 0, 0, 0, 0, time.UTC).UnixNano(), MaxSteps: 2000}
+	if rng.Intn(2) == 0 {
+		cfg.AMEV = 0
+	}
+	cfg.BaseHeight = uint32(2*n - 1) // height 2n: validator 0 is the primary of view 0
+	cfg.GenesisTs = uint64(cfg.Epoch) - uint64(cfg.TPB)
+	cfg.K.SlowNode, cfg.K.ResetDelayNode = -1, -1
+	cfg.Roles = make([]vnet.Role, n)
+	for i := 0; i < f; i++ {
+		cfg.Roles[i] = vnet.Byzantine // 0 (primary) .. f-1
+	}
+	c := vnet.NewCluster(cfg, mons...)
+	a := vnet.NewAdversary(c)
+	h := cfg.BaseHeight + 1
+	var setA, setB []int
+	for i := f; i < n; i++ {
+		if len(setA) < m-f {
+			setA = append(setA, i)
+		} else {
+			setB = append(setB, i)
+		}
+	}
+	for i := f; i < n; i++ {
+		c.Nodes[i].Start()
+	}
+	tip := c.Nodes[f].TipHash()
+	ts := c.Nodes[f].TipTs() + uint64(time.Second)
+	mk := func(t dbft.MessageType, idx int, body any) *vnet.Payload {
+		return &vnet.Payload{T: t, Hgt: h, View: 0, Idx: uint16(idx), Body: body}
+	}
+	in := func(l []int, x int) bool {
+		for _, y := range l {
+			if y == x {
+				return true
+			}
+		}
+		return false
+	}
+	// a transaction only the victims miss
+	var p2hashes = []vnet.H{}
+	var missing *vnet.Tx
+	if rng.Intn(2) == 0 {
+		missing = c.NewTx(false)
+		p2hashes = append(p2hashes, missing.Hash())
+	}
+	p1 := mk(dbft.PrepareRequestType, 0, &vnet.PrepReq{Ts: ts, Nc: 1, Hashes: []vnet.H{}})
+	p2 := mk(dbft.PrepareRequestType, 0, &vnet.PrepReq{Ts: ts, Nc: 2, Hashes: p2hashes})
+	byz := a.Byz
+	// phase 1: P1 is decided by set A
+	a.Inject(byz[0], p1, setA, "proposal P1")
+	for _, b := range byz[1:] {
+		a.Inject(b, mk(dbft.PrepareResponseType, b.ID, &vnet.PrepResp{Prep: p1.Hash()}), setA, "response for P1")
+	}
+	if cfg.AMEV >= 0 {
+		for _, b := range byz {
+			a.Inject(b, mk(dbft.PreCommitType, b.ID, &vnet.PreCommitB{D: c.PreBlockFor(p1, tip).DataWith(b.Key)}), setA, "pre-commit for P1")
+		}
+	}
+	for _, b := range byz {
+		a.Inject(b, mk(dbft.CommitType, b.ID, &vnet.CommitB{Sig: c.BlockFor(p1, tip).SignWith(b.Key)}), setA, "commit for P1")
+	}
+	for k := 0; k < 6; k++ { // everything addressed to A, to quiescence
+		deliverWhere(c, func(e *vnet.Envelope) bool { return in(setA, e.To) })
+	}
+	// phase 2: the victims get, in a seeded order, the genuine traffic of A and the adversary's material for P2
+	a.Inject(byz[0], p2, setB, "proposal P2")
+	for _, b := range byz[1:] {
+		a.Inject(b, mk(dbft.PrepareResponseType, b.ID, &vnet.PrepResp{Prep: p2.Hash()}), setB, "response for P2")
+	}
+	if cfg.AMEV >= 0 {
+		for _, b := range byz {
+			a.Inject(b, mk(dbft.PreCommitType, b.ID, &vnet.PreCommitB{D: c.PreBlockFor(p2, tip).DataWith(b.Key)}), setB, "pre-commit for P2")
+		}
+	}
+	for _, b := range byz {
+		a.Inject(b, mk(dbft.CommitType, b.ID, &vnet.CommitB{Sig: c.BlockFor(p2, tip).SignWith(b.Key)}), setB, "commit for P2")
+	}
+	supplied := missing == nil
+	for steps := 0; steps < 400; steps++ {
+		var cand []int
+		for i, e := range c.Inflight {
+			if in(setB, e.To) {
+				cand = append(cand, i)
+			}
+		}
+		if !supplied && (len(cand) == 0 || rng.Intn(6) == 0) {
+			// the application obtains the missing transaction for one victim (or all of them at the end)
+			for _, v := range setB {
+				if nd := c.Nodes[v]; nd.Live() && nd.Requested[missing.Hash()] {
+					nd.SupplyTx(missing)
+					if len(cand) != 0 {
+						break
+					}
+				}
+			}
+			if len(cand) == 0 {
+				supplied = true
+			}
+			continue
+		}
+		if len(cand) == 0 {
+			break
+		}
+		i := cand[rng.Intn(len(cand))]
+		e := c.Inflight[i]
+		c.Inflight = append(c.Inflight[:i], c.Inflight[i+1:]...)
+		c.Deliver(e)
+	}
+	finish(c)
+	return &Built{C: c, Spec: Spec{Profile: "split-primary", Idx: -1, Seed: cfg.Seed}}
+}
